@@ -255,7 +255,7 @@ theorem quickRec_spec : ∀ (n left right : Nat) (a : Array Elem), n = right - l
       simp only [e2]
       have hi : i < a2.size := by omega
       have hr1 : right - 1 < a2.size := by omega
-      simp only [swp_eq_ok hi hr1, show left < i ∧ i < right by omega, if_true]
+      simp only [swp_eq_ok hi hr1, show left < i ∧ i < right by omega]
       have kpiv : K a2 (right - 1) = pivot.1 := by
         rw [K_congr (o2 (right - 1) (Or.inr (Nat.le_refl _)))]; exact m2
       -- the array after restoring the pivot
